@@ -59,7 +59,7 @@ MANIFEST = {
     "text": "Bounded model checking of the whole core on the OS model: per job one send/transition script to a single "
             "recipient from two senders (tell, publish, broadcast, system notification, poison pill, pause/resume, "
             "interleaved dispatch) in dispatch, quit+flush and blocking-loop mode, with and without batching; the "
-            "recipient's recorded log must equal the send order, nothing after the pill, everything before it",
+            "recipient's recorded log must equal the send order, nothing after the pill, everything before it; a low-priority event held back without batching, a pill sent to oneself, a pill arriving while earlier messages are still batched",
     "note": "scripts are per-job constants (symbolic call order does not finish); errno/quit code free; OS-model pipes "
             "are FIFOs like kernel pipes",
 }
